@@ -230,6 +230,89 @@ func init() {
 		}
 		return strEq(mkString(segs[len(segs)-len(suf):]), mkString(suf))
 	}
+	externals["strings.CutSuffix"] = func(fr *frame, args []value) value {
+		if ss, ok := allStrings(args[0], args[1]); ok {
+			before, found := strings.CutSuffix(ss[0], ss[1])
+			return tuple{before, found}
+		}
+		segs := strSegs(fr.i.ex.flatten(args[0]))
+		suf := mustConcrete(args[1], "suffix")
+		if len(suf) <= len(segs) && fr.matchAt(segs, len(segs)-len(suf), suf) {
+			return tuple{mkString(segs[:len(segs)-len(suf)]), true}
+		}
+		return tuple{mkString(segs), false}
+	}
+	externals["strings.CutPrefix"] = func(fr *frame, args []value) value {
+		if ss, ok := allStrings(args[0], args[1]); ok {
+			after, found := strings.CutPrefix(ss[0], ss[1])
+			return tuple{after, found}
+		}
+		segs := strSegs(fr.i.ex.flatten(args[0]))
+		pre := mustConcrete(args[1], "prefix")
+		if fr.matchAt(segs, 0, pre) {
+			return tuple{mkString(segs[len(pre):]), true}
+		}
+		return tuple{mkString(segs), false}
+	}
+	externals["strings.Cut"] = func(fr *frame, args []value) value {
+		if ss, ok := allStrings(args[0], args[1]); ok {
+			a, b, found := strings.Cut(ss[0], ss[1])
+			return tuple{a, b, found}
+		}
+		segs := strSegs(fr.i.ex.flatten(args[0]))
+		sep := mustConcrete(args[1], "separator")
+		for i := 0; i+len(sep) <= len(segs); i++ {
+			if fr.matchAt(segs, i, sep) {
+				return tuple{mkString(segs[:i]), mkString(segs[i+len(sep):]), true}
+			}
+		}
+		return tuple{mkString(segs), "", false}
+	}
+	externals["strings.Count"] = func(fr *frame, args []value) value {
+		if ss, ok := allStrings(args[0], args[1]); ok {
+			return strings.Count(ss[0], ss[1])
+		}
+		segs := strSegs(fr.i.ex.flatten(args[0]))
+		pat := mustConcrete(args[1], "substring")
+		if pat == "" {
+			panic(pathAbort{"unsupported", "strings.Count with empty pattern on a symbolic string"})
+		}
+		n := 0
+		for i := 0; i+len(pat) <= len(segs); {
+			if fr.matchAt(segs, i, pat) {
+				n++
+				i += len(pat)
+			} else {
+				i++
+			}
+		}
+		return n
+	}
+	externals["strings.EqualFold"] = func(fr *frame, args []value) value {
+		if ss, ok := allStrings(args[0], args[1]); ok {
+			return strings.EqualFold(ss[0], ss[1])
+		}
+		return strEq(fr.symCase(args[0], false), fr.symCase(args[1], false))
+	}
+	externals["strings.Repeat"] = func(fr *frame, args []value) value {
+		n := int(fr.concreteInt(args[1], "count"))
+		var out value = ""
+		for i := 0; i < n; i++ {
+			out = strConcat(out, args[0])
+		}
+		return out
+	}
+	externals["strings.TrimSuffix"] = func(fr *frame, args []value) value {
+		if ss, ok := allStrings(args[0], args[1]); ok {
+			return strings.TrimSuffix(ss[0], ss[1])
+		}
+		segs := strSegs(fr.i.ex.flatten(args[0]))
+		suf := mustConcrete(args[1], "suffix")
+		if len(suf) <= len(segs) && fr.matchAt(segs, len(segs)-len(suf), suf) {
+			return mkString(segs[:len(segs)-len(suf)])
+		}
+		return mkString(segs)
+	}
 	externals["strings.TrimPrefix"] = func(fr *frame, args []value) value {
 		if ss, ok := allStrings(args[0], args[1]); ok {
 			return strings.TrimPrefix(ss[0], ss[1])
